@@ -40,6 +40,7 @@ type runStats struct {
 	CrashPoints    map[string]int `json:"crash_points_fired"`
 	PointsSeen     map[string]int `json:"crash_points_hit"`
 	Bases          int            `json:"base_histories"`
+	Hangs          int            `json:"hang_runs"` // runs that ended in a blocked API call (event "hang")
 	Panics         []string       `json:"panics"`
 	Parallel       int            `json:"parallel"`
 }
@@ -141,6 +142,8 @@ func account(st *runStats, b *bundle, cases []caseSpec, results []*result) {
 				st.Refused++
 			case "crash":
 				st.CrashPoints[e["point"].(string)]++
+			case "hang":
+				st.Hangs++
 			}
 		}
 		for _, h := range res.Hits {
@@ -163,13 +166,16 @@ func TestExplore(t *testing.T) {
 	tier, seed := core.Tier(), core.Seed()
 	rng := rand.New(rand.NewSource(seed))
 	budget := 2
-	nSampled, nsess, depth, maxCrashPerSampled, nDouble := 36, 2, 4, 3, 0
+	nSampled, nsess, depth, maxCrashPerSampled, nDouble, nUnknown := 36, 2, 4, 3, 0, 8
 	if tier == "thorough" {
-		nSampled, nsess, depth, maxCrashPerSampled, nDouble = 500, 3, 5, 8, 400
+		nSampled, nsess, depth, maxCrashPerSampled, nDouble, nUnknown = 500, 3, 5, 8, 400, 100
 	}
 	bases := canonical(budget)
 	ncanon := len(bases)
 	bases = append(bases, sampleBases(rng, nSampled, nsess, depth, budget)...)
+	// histories with a StopSession for an identifier that is not in the table; own generator, so
+	// that the sample above is the same as without them
+	bases = append(bases, sampleUnknownStop(rand.New(rand.NewSource(seed+7919)), nUnknown, nsess, depth, budget)...)
 	for i := range bases {
 		bases[i].ID = fmt.Sprintf("b%d", i)
 	}
